@@ -17,7 +17,18 @@ pub fn eval_const(cx: &Cx, e: &Expr, module: &[String], locals: &[(String, i128)
         Expr::Lit(ExprLit { lit: Lit::Int(i), .. }) => i.base10_parse().unwrap(),
         Expr::Paren(p) => eval_const(cx, &p.expr, module, locals),
         Expr::Group(p) => eval_const(cx, &p.expr, module, locals),
-        Expr::Cast(c) => eval_const(cx, &c.expr, module, locals),
+        Expr::Cast(c) => {
+            // `as` between integer types wraps; to anything else (or an unknown type) it is the identity here
+            let v = eval_const(cx, &c.expr, module, locals);
+            match cx.ty_of(&c.ty, module, None) {
+                Ty::Int(t) => {
+                    let (lo, hi) = int_bounds(t);
+                    let m = hi - lo + 1;
+                    (v - lo).rem_euclid(m) + lo
+                }
+                _ => v,
+            }
+        }
         Expr::Unary(u) if matches!(u.op, UnOp::Neg(_)) => -eval_const(cx, &u.expr, module, locals),
         Expr::Binary(b) => {
             let (l, r) = (eval_const(cx, &b.left, module, locals), eval_const(cx, &b.right, module, locals));
@@ -30,6 +41,21 @@ pub fn eval_const(cx: &Cx, e: &Expr, module: &[String], locals: &[(String, i128)
         }
         Expr::Path(p) => {
             let n = p.path.segments.last().unwrap().ident.to_string();
+            // `T::MIN` / `T::MAX` for an integer type or an alias of one (e.g. `Jdnum::MAX`)
+            if p.path.segments.len() == 2 && (n == "MIN" || n == "MAX") {
+                let tn = p.path.segments[0].ident.to_string();
+                let ty = match int_ty(&tn) {
+                    Some(t) => Some(t),
+                    None => match cx.aliases.get(&tn) {
+                        Some(Ty::Int(t)) => Some(*t),
+                        _ => None,
+                    },
+                };
+                if let Some(t) = ty {
+                    let (lo, hi) = int_bounds(t);
+                    return if n == "MIN" { lo } else { hi };
+                }
+            }
             if let Some((_, v)) = locals.iter().rev().find(|(m, _)| m == &n) {
                 return *v;
             }
@@ -461,6 +487,21 @@ fn main() {
     }
     for n in bodies.keys() {
         emit_fn(n, &bodies, &mut done, &mut out);
+    }
+    // Functions that the reference model (args[4]: the committed snapshot of Gen.v) does not have are helpers introduced by
+    // a later edit of the source: they are registered for unfolding ([autounfold with gen_new]) so that proofs about their
+    // callers see through them.
+    if let Some(snap) = args.get(4) {
+        if let Ok(text) = std::fs::read_to_string(snap) {
+            let known: BTreeSet<String> = text.lines().filter_map(|l| l.strip_prefix("Definition ")).filter_map(|l| l.split_whitespace().next()).map(|x| x.to_string()).collect();
+            let newf: Vec<&String> = bodies.keys().filter(|n| !known.contains(*n)).collect();
+            if !newf.is_empty() {
+                out += "\n(* functions that the committed snapshot of the model does not have *)\n";
+                for n in newf {
+                    out += &format!("#[global] Hint Unfold {n} : gen_new.\n");
+                }
+            }
+        }
     }
 
     // ---- write
